@@ -40,6 +40,9 @@ type PrioSc struct {
 	// fail - and leave nothing running: "nil-handle", "nil-divider", "zero-h",
 	// "nil-output", "nil-feedback".
 	BadOpt string `json:"bad_opt,omitempty"`
+	// Linger (v1 Simple): a Handle call whose context was cancelled needs this many more ns
+	// to return (it honours its context, in bounded time - not in zero time).
+	Linger int64 `json:"linger,omitempty"`
 	// LateErr (prio2): the user looks at Err() only once the output channel was seen
 	// closed ("you don't have to read from this channel" while the divider is trusted).
 	LateErr bool `json:"late_err,omitempty"`
@@ -65,6 +68,10 @@ type PInput struct {
 	Bursts  []Burst `json:"bursts"`
 	Close   bool    `json:"close"` // the producer closes the channel at the end of its script
 	Late    bool    `json:"late"`  // v1: not passed to New, registered later by an "add" action
+	// Thief (C02): a second reader of this input channel - another discipline or a worker
+	// the channel is shared with - takes up to this many items, pausing ThiefDelay ns after each.
+	Thief      int   `json:"thief,omitempty"`
+	ThiefDelay int64 `json:"thief_delay,omitempty"`
 }
 
 // PHandler is the behaviour of one handler (plain engines) or of every k-th Handle
@@ -784,6 +791,22 @@ func genPrio(engine, prop string, r *simrt.SplitMix) *PrioSc {
 			}
 		}
 
+		earlyGraceful := false
+
+		if (prop == "C17" || prop == "C02" || prop == "C07") && r.Intn(4) == 0 {
+			// GracefulStop is requested early, by a party of its own, and stays pending while
+			// the controller goes on adding and removing inputs; an idle input that is closed
+			// only at the very end keeps the discipline from terminating under the script
+			earlyGraceful = true
+
+			sc.Inputs = append(sc.Inputs, PInput{Prio: 3001, Cap: pick(r, 0, 1)})
+
+			at := r.Intn(len(sc.Ctl) + 1)
+			ns, steps := wait()
+			g := PAction{WaitNs: ns, WaitSteps: steps, Kind: "graceful"}
+			sc.Ctl = append(sc.Ctl[:at], append([]PAction{g}, sc.Ctl[at:]...)...)
+		}
+
 		if prop == "C06" && r.Intn(3) == 0 {
 			sc.LateSilent = true
 			sc.Inputs, sc.Ctl = sc.Inputs[:0], sc.Ctl[:0]
@@ -831,7 +854,12 @@ func genPrio(engine, prop string, r *simrt.SplitMix) *PrioSc {
 		}
 
 		ns, steps := wait()
-		sc.Ctl = append(sc.Ctl, PAction{WaitNs: ns, WaitSteps: steps, Kind: "graceful"})
+
+		if earlyGraceful {
+			sc.Ctl = append(sc.Ctl, PAction{WaitNs: ns, WaitSteps: steps, Kind: "closein", A: len(sc.Inputs) - 1})
+		} else {
+			sc.Ctl = append(sc.Ctl, PAction{WaitNs: ns, WaitSteps: steps, Kind: "graceful"})
+		}
 	}
 
 	if sc.plain() && (sc.Class == "normal" || sc.Class == "fault" || sc.Class == "dynamic" || sc.Class == "stop") && (r.Intn(4) == 0 || sc.H >= 40) {
@@ -853,13 +881,37 @@ func genPrio(engine, prop string, r *simrt.SplitMix) *PrioSc {
 		sc.LateErr = true
 	}
 
+	if prop == "C02" && sc.Class == "normal" && len(sc.Inputs) > 0 && r.Intn(6) == 0 {
+		i := r.Intn(len(sc.Inputs))
+		sc.Inputs[i].Thief = between(r, 1, 6)
+		sc.Inputs[i].ThiefDelay = int64(pick(r, 0, 1, 3, 10))
+	}
+
 	sc.ReuseMap = r.Intn(4) == 0
 	if sc.ReuseMap {
 		sc.ReuseKeys = r.Intn(4)
 	}
 
-	// stop scenarios: a second, concurrent Stop / a GracefulStop after Stop
-	if sc.Class == "stop" && r.Intn(3) == 0 {
+	if sc.Class == "stop" && engine == "simple1" && r.Intn(2) == 0 {
+		sc.Linger = int64(pick(r, 1, 3, 10))
+	}
+
+	// stop scenarios: two callers of Stop at once - the second one is started first, in a
+	// task of its own, and the script's own (blocking) Stop follows within a few ns
+	if sc.Class == "stop" && r.Intn(4) == 0 {
+		for i := len(sc.Ctl) - 1; i >= 0; i-- {
+			if sc.Ctl[i].Kind == "stop" {
+				early := PAction{WaitNs: sc.Ctl[i].WaitNs, WaitSteps: sc.Ctl[i].WaitSteps, Kind: "stop2"}
+				sc.Ctl[i].WaitNs, sc.Ctl[i].WaitSteps = int64(r.Intn(3)), 0
+				sc.Ctl = append(sc.Ctl[:i], append([]PAction{early}, sc.Ctl[i:]...)...)
+
+				break
+			}
+		}
+	}
+
+	// stop scenarios: a second Stop / a GracefulStop after the first Stop (or cancel)
+	if sc.Class == "stop" && (r.Intn(3) == 0 || (sc.Linger > 0 && r.Intn(2) == 0)) {
 		sc.Ctl = append(sc.Ctl, PAction{WaitNs: int64(r.Intn(2)), Kind: pick(r, "stop2", "stop2", "graceful")})
 	}
 
@@ -1213,6 +1265,10 @@ func buildPrio(sc *PrioSc) (simrt.Config, func()) {
 				}
 			}
 
+			if sc.Linger > 0 && hctx != nil && hctx.Err() != nil {
+				simrt.Sleep("env:handle-linger", ns(sc.Linger))
+			}
+
 			results[int(n)%len(results)] = -item
 			simrt.AddVar(varRunning, -1)
 			simrt.Note("handle-exit", int64(item), 0)
@@ -1374,6 +1430,31 @@ func buildPrio(sc *PrioSc) (simrt.Config, func()) {
 
 			simrt.Close("env:err", done)
 		})
+
+		// second readers of shared input channels
+		for i := range sc.Inputs {
+			i := i
+			in := sc.Inputs[i]
+
+			if in.Thief == 0 {
+				continue
+			}
+
+			simrt.GoEnv(fmt.Sprintf("thief[%d]", i), func() {
+				for n := 0; n < in.Thief; n++ {
+					item, ok, got := simrt.RecvOr("env:thief", (<-chan int)(chans[i]), done)
+					if !got || !ok {
+						return
+					}
+
+					simrt.Note("stolen", int64(item), 0)
+
+					if !simrt.SleepOr("env:thief", ns(in.ThiefDelay), done) {
+						return
+					}
+				}
+			})
+		}
 
 		// producers
 		for i := range sc.Inputs {
